@@ -359,6 +359,15 @@ func c02ctors() []c02ctor {
 			return &pexpr{k: kChain, text: c, prop: "q", kids: k[:1], args: []*pexpr{k[1]}, hasArg: true, multi: true}
 		}})
 	}
+	for _, c := range []string{"$", "~$", "=@", "&@", "&.", "@"} {
+		c := c
+		cs = append(cs, c02ctor{"chain-arg-multiline " + c + "(x)", 2, func(k []*pexpr) *pexpr {
+			return &pexpr{k: kChain, text: c, prop: "r", kids: k[:1], carg: k[1], multi: true}
+		}})
+		cs = append(cs, c02ctor{"chain-arg " + c + "(x) with call args", 2, func(k []*pexpr) *pexpr {
+			return &pexpr{k: kChain, text: c, prop: "r", kids: k[:1], carg: k[1], args: []*pexpr{{k: kAtom, text: "z"}}, hasArg: true}
+		}})
+	}
 	cs = append(cs, c02ctor{"chain-arg $(x)", 2, func(k []*pexpr) *pexpr {
 		return &pexpr{k: kChain, text: "$", prop: "r", kids: k[:1], carg: k[1]}
 	}})
@@ -593,6 +602,30 @@ func runC02(w *fw.W) {
 					emit(item{x + " " + o1.op + " " + y, t.print(true, lvIf), t.render(), fmt.Sprintf("literal-operands|L%d", o1.lv), "literal_operands"})
 					t3 := c02climb([]*pexpr{atom(x), atom("b"), atom(y)}, []string{o1.op, "**"})
 					emit(item{x + " " + o1.op + " b ** " + y, t3.print(true, lvIf), t3.render(), fmt.Sprintf("literal-operands|L%d|**", o1.lv), "literal_operands"})
+				}
+			}
+		}
+	})
+	// array-literal elements (and index arguments): an element groups like the same expression anywhere else, also behind
+	// the unpack operator `*`
+	runBatch("array-literal elements", func(emit func(item)) {
+		for _, pre := range []string{"*", "-", "!", ""} {
+			for _, inner := range ctors {
+				if inner.arity > 2 || strings.HasPrefix(inner.name, "chain-multiline") || strings.HasPrefix(inner.name, "chain-args-multiline") {
+					continue
+				}
+				names := 0
+				kids := freshAtoms(inner.arity, &names)
+				if pre != "" {
+					kids[0] = &pexpr{k: kPrefix, text: pre, kids: []*pexpr{kids[0]}}
+				}
+				t := inner.mk(kids)
+				if t.k == kAssign || t.k == kCAssign || t.k == kRAssign {
+					continue
+				}
+				for _, wrap := range []struct{ l, r, wl, wr string }{{"[", "]", "[", "]"}, {"[x, ", ", y]", "[x, ", ", y]"}} {
+					emit(item{wrap.l + t.print(false, lvIf) + wrap.r, wrap.l + t.print(true, lvIf) + wrap.r, wrap.wl + t.render() + wrap.wr,
+						fmt.Sprintf("array-element|%s|%s", pre, ctorClass(inner.name)), "array_elements"})
 				}
 			}
 		}
